@@ -826,6 +826,9 @@ impl Harness for C11 {
         let jobs = {
             let mut j: Vec<Job> = jobs;
             j.insert(0, Job::new("builders", json!({"kind": "builders"})));
+            for i in 0..mc_sc::entry::n_parts("C11") {
+                j.insert(1 + i, Job::new(format!("entry-{}", i), json!({"kind": "entry", "part": i})));
+            }
             j
         };
         Plan {
@@ -834,6 +837,7 @@ impl Harness for C11 {
             case_deadline_ms: 20_000,
             floors: vec![
                 ("builder_chains", 5),
+                ("entry_cases", 1000),
                 ("fit_gaussian", 10_000),
                 ("fit_multinomial", 100_000),
                 ("fit_bernoulli", 100_000),
@@ -863,6 +867,7 @@ impl Harness for C11 {
             ],
             bounds: json!({
                 "builders": mc_sc::builders::BOUNDS,
+                "entry_paths": mc_sc::entry::BOUNDS,
                 "lattice": "every training set over the variant's alphabet with every labelling (G/M/B: onto k classes; Gaussian: every class >= 2 rows and non-zero variance; categorical: label values 0..3 with gaps) x configuration set; see NOTES.md for the (n,p,k,alphabet,config-set) list per tier",
                 "lattice_leaves_upper_bound": lattice_leaves,
                 "alphabets": {"gaussian": G_BASE, "gaussian_tight_clusters": G_TIGHT, "multinomial": M_ALPH[(seed % 8) as usize], "bernoulli": "{0,1} (binarize none/0/0.5) and reals {-0.5,0.2,0.7,1.5} with thresholds {0,0.5,0.7,-0.7}",
@@ -877,6 +882,9 @@ impl Harness for C11 {
     }
 
     fn run(&self, job: &Job) {
+        if job.kind() == "entry" {
+            return mc_sc::entry::run_part("C11", job.u("part"));
+        }
         match job.kind() {
             "lat" => run_lattice(job),
             "fam" => run_family(job),
